@@ -541,7 +541,7 @@ def run_impl(ctx, meta, ops, tag="s"):
                     f = bound_method(meta, rig.store, cls, mname)
                     scal = [chain_value(py, x) for x in mm["args"]]
                     loop = [tr.canon(v, mm["loop_affinity"]) for v in py[mm["loop"]]] if mm["loop"] else []
-                    if len(mm["params"]) != len(py):
+                    if len(mm["params"]) != len(py) and not _defaults_cover(f, py):
                         raise ValueError("%s.%s takes %r, the driver passes %r" % (cls, mname, mm["params"], sorted(py)))
                 except Exception as e:
                     out.problems.append(("driver", {"op": idx, "error": "args: %r" % (e,)}))
@@ -647,6 +647,18 @@ def run_impl(ctx, meta, ops, tag="s"):
     finally:
         rig.close()
     return out
+
+
+def _defaults_cover(f, py):
+    """the method takes the arguments the driver passes, by name, and every other parameter has a default"""
+    import inspect
+    try:
+        ps = inspect.signature(f).parameters
+    except (TypeError, ValueError):
+        return False
+    return all(k in ps for k in py) and all(q.default is not inspect.Parameter.empty or
+                                            q.kind in (q.VAR_POSITIONAL, q.VAR_KEYWORD)
+                                            for k, q in ps.items() if k not in py)
 
 
 def op_keys(name, py):
